@@ -186,7 +186,7 @@ theorem min_stake_step (s : State) (op : Op) (r : State × List (Addr × Int) ×
       generalize (runTx s mode t).1 = s' at h1 hp ⊢
       obtain ⟨_, hh⟩ := h1
       by_cases hmsg : (∀ k amt, t.msg ≠ .stake k amt) ∧ (∀ a, t.msg ≠ .unstake a) ∧ (∀ a, t.msg ≠ .unjail a)
-      · obtain ⟨b, sup, p, ac, d, rfl⟩ := handle_other_shape hh hmsg
+      · obtain ⟨b, sup, p, ac, d, u, rfl⟩ := handle_other_shape hh hmsg
         intro a w hw hst
         simp only at hw hp ⊢
         rw [hp, ← e2]; exact hm0 a w hw hst
@@ -324,7 +324,7 @@ theorem status_step (s : State) (op : Op) (r : State × List (Addr × Int) × Bo
       rw [hok]
       generalize (runTx s .deliver t).1 = s' at hh ⊢
       by_cases hmsg : (∀ k amt, t.msg ≠ .stake k amt) ∧ (∀ a, t.msg ≠ .unstake a) ∧ (∀ a, t.msg ≠ .unjail a)
-      · obtain ⟨b, sup, p, ac, d, rfl⟩ := handle_other_shape hh hmsg
+      · obtain ⟨b, sup, p, ac, d, u, rfl⟩ := handle_other_shape hh hmsg
         exact edge_of_eq (show aget s0.vals a = aget s.vals a by rw [e1])
       · cases hmc : t.msg with
         | stake k amt =>
